@@ -22,6 +22,26 @@ pub fn sqrt(a: Z) -> Z { if a == (0.0, 0.0) { return (0.0, 0.0); } exp(scale(ln(
 pub fn powc(a: Z, w: Z) -> Z { if a == (0.0, 0.0) { return if w == (0.0, 0.0) { (1.0, 0.0) } else { (0.0, 0.0) }; } exp(mul(w, ln(a))) }
 const I: Z = (0.0, 1.0);
 const ONE: Z = (1.0, 0.0);
+/// ln(1 + w) without forming 1 + w (accurate for small |w|)
+pub fn ln1p(w: Z) -> Z { (0.5 * (2.0 * w.0 + w.0 * w.0 + w.1 * w.1).ln_1p(), w.1.atan2(1.0 + w.0)) }
+/// principal asinh: odd; ln(1 + z + z^2/(1 + sqrt(z^2+1))) for small |z| (no cancellation against 1), ln(2z) for huge |z|
+pub fn asinh(z: Z) -> Z {
+    if z.0 < 0.0 { return neg(asinh(neg(z))); }
+    let m = modulus(z);
+    if m > 1e8 { let l = ln(z); return (l.0 + std::f64::consts::LN_2, l.1); }
+    let zz = mul(z, z);
+    let iz = mul(I, z);
+    let s = sqrt(mul(add(ONE, iz), sub(ONE, iz)));      // 1 + z^2 = (1 + iz)(1 - iz): no cancellation near z = +-i
+    if m < 0.5 { ln1p(add(z, div(zz, add(ONE, s)))) } else { ln(add(z, s)) }
+}
+/// principal atanh = (ln(1+z) - ln(1-z)) / 2
+pub fn atanh(z: Z) -> Z { scale(sub(ln1p(z), ln1p(neg(z))), 0.5) }
+/// asin z = -i asinh(iz);  atan z = -i atanh(iz)
+pub fn asin(z: Z) -> Z { let w = asinh((-z.1, z.0)); (w.1, -w.0) }
+pub fn atan(z: Z) -> Z { let w = atanh((-z.1, z.0)); (w.1, -w.0) }
+/// acosh z = ln(z + sqrt(z+1) sqrt(z-1)) = ln(1 + (z-1) + sqrt(z+1) sqrt(z-1))
+pub fn acosh(z: Z) -> Z { let r = mul(sqrt(add(z, ONE)), sqrt(sub(z, ONE))); let d = sub(z, ONE);
+                          if modulus(d) < 0.5 { ln1p(add(d, r)) } else if modulus(z) > 1e8 { let l = ln(z); (l.0 + std::f64::consts::LN_2, l.1) } else { ln(add(z, r)) } }
 
 /// is z within `rel` of the ray { t*dir : t >= from } on an axis?  axis: 0 = real, 1 = imaginary
 fn near_real_below(z: Z, bound: f64) -> bool { z.0 <= bound + 1e-6 * (1.0 + z.0.abs()) && z.1.abs() <= 1e-6 * (1.0 + modulus(z)) }
@@ -98,15 +118,15 @@ impl Sem for CpxSem {
             "Tanh" => { let s = (z.0.sinh() * z.1.cos(), z.0.cosh() * z.1.sin()); let c = (z.0.cosh() * z.1.cos(), z.0.sinh() * z.1.sin());
                         if modulus(c) < 1e-6 { return Err(Stop::Unspec("NearPole")); } self.t(div(s, c)) }
             "Asin" => { self.cut(near_real_below(z, -1.0) || near_real_above(z, 1.0))?;
-                        let w = add(mul(I, z), sqrt(sub(ONE, mul(z, z)))); self.t(mul(neg(I), ln(w))) }
+                        self.t(asin(z)) }
             "Acos" => { self.cut(near_real_below(z, -1.0) || near_real_above(z, 1.0))?;
-                        let w = add(z, mul(I, sqrt(sub(ONE, mul(z, z))))); self.t(mul(neg(I), ln(w))) }
+                        let a = asin(z); self.t((std::f64::consts::FRAC_PI_2 - a.0, -a.1)) }
             "Atan" => { self.cut(near_imag_outside(z))?;
-                        let a = ln(sub(ONE, mul(I, z))); let b = ln(add(ONE, mul(I, z))); self.t(mul((0.0, 0.5), sub(a, b))) }
-            "Arsinh" => { self.cut(near_imag_outside(z))?; self.t(ln(add(z, sqrt(add(mul(z, z), ONE))))) }
-            "Arcosh" => { self.cut(near_real_below(z, 1.0))?; self.t(ln(add(z, mul(sqrt(add(z, ONE)), sqrt(sub(z, ONE)))))) }
+                        self.t(atan(z)) }
+            "Arsinh" => { self.cut(near_imag_outside(z))?; self.t(asinh(z)) }
+            "Arcosh" => { self.cut(near_real_below(z, 1.0))?; self.t(acosh(z)) }
             "Artanh" => { self.cut(near_real_below(z, -1.0) || near_real_above(z, 1.0))?;
-                          self.t(scale(sub(ln(add(ONE, z)), ln(sub(ONE, z))), 0.5)) }
+                          self.t(atanh(z)) }
             _ => Err(Stop::Err("function not offered")),
         }
     }
